@@ -81,6 +81,7 @@ def run_one(prop, name, tier, confirm):
                                 "failed_obligations": failed[:8], "summary": (lines[-1] if lines else "")[:300],
                                 "stderr_tail": r.stderr[-300:] if r.returncode not in (0, 1) else ""}
         res["detected"] = any(v["exit"] == 1 for v in res["checks"].values())
+        res["in_domain"] = meta.get("in_domain", True)
         if confirm:
             env = dict(os.environ, PYTHONPATH=os.path.join(scratch, "src"))
             demo = os.path.join(sd, "demo.py")
@@ -121,14 +122,15 @@ def main():
             r = f.result()
             results.append(r)
             c = r.get("checks", {})
-            print(f"{r['property']}/{r['name']}: " + (r.get("error") or ("DETECTED" if r.get("detected") else "MISSED"))
+            print(f"{r['property']}/{r['name']}: " + (r.get("error") or ("DETECTED" if r.get("detected") else
+                                                                             "MISSED" if r.get("in_domain", True) else "SILENT (out of the property's domain, see meta.json)"))
                   + " " + " ".join(f"{k}:exit={v['exit']},viol={v['violations']}" for k, v in c.items())
                   + (f" demo {r.get('demo_exit_unchanged')}->{r.get('demo_exit_changed')} tests_ok={r.get('tests_ok')}"
                      if confirm else ""), flush=True)
     results.sort(key=lambda r: (r["property"], r["name"]))
     if not ids:
         json.dump(results, open(os.path.join(SEEDED, "RESULTS.json"), "w", encoding="utf-8"), indent=1)
-    return 0 if all(r.get("detected") for r in results) else 1
+    return 0 if all(r.get("detected") or not r.get("in_domain", True) for r in results) else 1
 
 
 if __name__ == "__main__":
